@@ -138,26 +138,22 @@ theorem listOk_of {cfg : Profile} {t : Node} (h : Hyp cfg t) (hm : cfg.mlsd = fa
     (hg : t.get cs = some (.dir es)) : ∀ kv ∈ es, ListOk cfg kv := by
   intro kv hkv
   obtain ⟨hn, _, hs⟩ := entries_ok h hg kv hkv
-  have := hn.2 hm
-  exact ⟨this.2, this.1.2, hs⟩
+  exact ⟨hn.2 hm, hn.1.2, hs⟩
 
-theorem mlsdOk_of {cfg : Profile} {t : Node} (h : Hyp cfg t) (hm : cfg.mlsd = true) {cs : List Name} {es : Ents}
+theorem noEol_of_noCrLf {n : Name} (h : NoCrLf n) : NoEol n := by
+  intro c r hcr
+  have hmem : c ∈ n := by
+    have : c ∈ n.reverse := by rw [hcr]; simp
+    simpa using this
+  have hr : c ≠ '\r' := by rintro rfl; exact h.1 hmem
+  have hn : c ≠ '\n' := by rintro rfl; exact h.2 hmem
+  simp [isEol, hr, hn]
+
+theorem mlsdOk_of {cfg : Profile} {t : Node} (h : Hyp cfg t) {cs : List Name} {es : Ents}
     (hg : t.get cs = some (.dir es)) : ∀ kv ∈ es, MlsdOk cfg kv := by
   intro kv hkv
   obtain ⟨hn, hc, hs⟩ := entries_ok h hg kv hkv
-  have hb := hn.1 hm
-  refine ⟨wfName_of_clean hc, ?_, hs⟩
-  intro c r hcr
-  have hmem : c ∈ kv.1 := by
-    have : c ∈ kv.1.reverse := by rw [hcr]; simp
-    simpa using this
-  have := hb c hmem
-  revert this
-  simp only [isLineBreak, isEol, Bool.or_eq_false_iff, beq_eq_false_iff_ne, ne_eq]
-  intro h'
-  constructor
-  · rintro rfl; exact h'.1.1.1.1.1.1.2 (by decide)
-  · rintro rfl; exact h'.1.1.1.1.1.1.1.1.1 (by decide)
+  exact ⟨wfName_of_clean hc, noEol_of_noCrLf hn.1, hs⟩
 
 theorem entries_nodup (cfg : Profile) (es : Ents) (hw : entsWf es = true) :
     ((es.map (entOf cfg)).map (·.1)).Nodup := by
@@ -213,7 +209,7 @@ theorem run_getinfoC {cfg : Profile} {t : Node} (h : Hyp cfg t) : ∀ (fuel : Na
         | none =>
           simp [mlstInfo, exec, hm, stat_none hg, infoSpec, hg, ftpErrors_550]
         | some n =>
-          obtain ⟨i, hi, hie⟩ := mlst_reply cfg h.conf cs n hne hp.clean (fun c hc => (hp.name c hc).1 hm)
+          obtain ⟨i, hi, hie⟩ := mlst_reply cfg h.conf cs n hne hp.clean (fun c hc => (hp.name c hc).1)
             (statesSize_at h hg)
           simp only [mlstInfo, run_command, exec, hm, stat_some hg, Bool.not_true, Bool.false_eq_true, if_false, hi, run_ret,
             infoSpec, hg, entAt, hne, mlsxEnt, hie]
@@ -548,7 +544,7 @@ theorem run_scandirC (h : Hyp cfg t) (cs : List Name) (hp : PathOk cfg cs) :
         · subst hes
           have := run_readDir h hg (Or.inr rfl)
           simp only [List.map_nil, ne_eq, not_true_eq_false, if_false, this]
-        · obtain ⟨infos, hpz, hmz⟩ := mlsd_listing cfg h.conf es (mlsdOk_of h hm hg)
+        · obtain ⟨infos, hpz, hmz⟩ := mlsd_listing cfg h.conf es (mlsdOk_of h hg)
           have hne : (es.map fun kv => mlsxLine cfg kv.1 kv.2) ≠ [] := by simpa using hes
           simp only [ne_eq, hne, not_false_eq_true, if_true, hpz, run_ret]
           rw [← hmz]; rfl
